@@ -235,11 +235,11 @@ type RollbackSpec struct {
 	// is going to cut off are first modified and written out by a cache spill (a row
 	// updated on a tail page, then deleted and vacuumed away in the same
 	// transaction). Their journal records are what a rollback restores them from.
-	DirtyCut     uint32 `json:"dirty_cut,omitempty"`
-	NRec         string `json:"nrec,omitempty"`       // "" (synced count) | "nosync" (0xFFFFFFFF, single segment)
-	Outcome      string `json:"outcome"`              // commit | rollback | lockonly
-	Mode         string `json:"mode"`                 // delete | truncate | persist
-	WALHeader    bool   `json:"wal_header,omitempty"` // commit page 1 with file-format 2/2 (switch to WAL)
+	DirtyCut  uint32 `json:"dirty_cut,omitempty"`
+	NRec      string `json:"nrec,omitempty"`       // "" (synced count) | "nosync" (0xFFFFFFFF, single segment)
+	Outcome   string `json:"outcome"`              // commit | rollback | lockonly
+	Mode      string `json:"mode"`                 // delete | truncate | persist
+	WALHeader bool   `json:"wal_header,omitempty"` // commit page 1 with file-format 2/2 (switch to WAL)
 }
 
 // Result of a transaction step sequence.
